@@ -28,6 +28,10 @@ let () =
       let m = to_z m and n = to_z n in
       if bphp_valid m n then formula_reply (bphp_numvar m n) (bphp_ir m n) else raises
     | _ -> raise (Bad "arity"));
+  register "fam_bphp_spec" (function [m; n] ->
+      let m = to_z m and n = to_z n in
+      if bphp_spec_valid m n then formula_reply (bphp_spec_numvar m n) (bphp_spec_ir m n) else raises
+    | _ -> raise (Bad "arity"));
   register "fam_rphp" (function [m; r; n] ->
       let m = to_z m and r = to_z r and n = to_z n in
       if rphp_valid m r n then formula_reply (rphp_numvar m r n) (rphp_ir m r n) else raises
